@@ -32,8 +32,8 @@ T = {
          'Rocq model + K2 correspondence, textbook oracle'),
  'C10': ('Coq theorem: E011/E013/E014 are reported exactly where the definition of an LL(1) conflict holds (all maps, all expressions outside operator branches); E012 and the tie by K2 correspondence + definitional oracle with textbook sets',
          'Rocq model + K2 correspondence, definitional oracle'),
- 'C11': ('Coq theorem on the driver model: no parser/skeleton/graph file for a rejected grammar (whole domain); "compiles" decided by rustc on every sampled accepted grammar incl. adversarial names; real binary for rejected ones',
-         'Rocq proof over the driver table + rustc on emitted parsers'),
+ 'C11': ('Coq theorems: on the driver model no parser/skeleton/graph file is written for a rejected grammar (whole domain); a program that passes the boolean scoping check (variables bound under block scoping, rule functions present, rec arity, no break/return escaping a choice alternative) never reaches a stuck statement on any input - evaluated on Compile.compile of every accepted grammar of the run, which KB ties to the emitted parser; types, lifetimes and the file preamble are decided by rustc on every sampled accepted grammar incl. adversarial names; real binary for rejected ones',
+         'Rocq proofs over Cli.v and Exec.v (Scoped.v) + KB/K5 correspondence + rustc on emitted parsers'),
  'C12': ('Coq theorems for the lexing stage (Lexer.v, tied to the logos lexer by correspondence on every explored text): token spans tile the text, every token and lexer-diagnostic span is non-empty, in bounds and on character boundaries, for all texts; parser stage tied to Exec.v (K3 on the checked-in src/frontend/generated.rs, ghost defined on every run, so the C01/C06 theorems apply to it); analysis stage and panic freedom by exhaustive short lexeme sequences, mutants and byte soup through the real front end under catch_unwind (exploration)',
          'Rocq lexer model + correspondence; exploration of the real front end for the stages without a model'),
  'C13': ('Coq theorem for the lexing half (Lexer.v): every sequence of well-formed tokens written with any layout that satisfies an exact no-fusion side condition (separators may be empty wherever the neighbours cannot fuse; the condition is proved necessary) is read back as exactly those tokens and that trivia, with no diagnostic; the parsing half (tokens -> typed view) by generator AST vs typed view of the real front end under random layouts (exploration)',
